@@ -1,9 +1,10 @@
 --------------------------- MODULE TextFileStorage ---------------------------
 (* Implementation-level model of windpyutils/parallel/storage.py (C14): writer processes with a script of
    ids, reader processes, the shared index / counters under the re-entrant lock, one append-only file per
-   writer.  One label per visible step of the code (lock operations, every access to the shared index or
-   the counters, the two OS writes a flushed line is split into), so that a reader can fall between any two
-   of them.  PublishFirst = TRUE is the design of the pinned tree (index entry published under the lock,
+   writer.  Exactly one label per visible operation of the code (lock operations, every access to the shared
+   index, the registry of files or the counters, the two OS writes a flushed line is split into, opening and
+   reading a file), so that a reader can fall between any two of them and so that executions of the real
+   code can be compared with behaviours of this model step by step (ReplayTextFileStorage.tla).  PublishFirst = TRUE is the design of the pinned tree (index entry published under the lock,
    line written after the lock is released) and serves as the negative control; FALSE is the repaired
    design (line written, then published, all under the lock).  The text of id g written by writer w is the
    pair <<w, g>>.                                                                                         *)
@@ -21,6 +22,7 @@ None == [w |-> 0, off |-> 0]
 (* --algorithm TextFileStorage {
 variables index = [j \in 1..PreSize |-> None],   \* position g+1: None or [w, off]
           cnt = 0, wf = 0, lock = 0,
+          paths = <<>>,                          \* registry of the writers' files, in registration order
           files = [w \in Writers |-> <<>>],      \* complete lines of writer w's file
           partial = [w \in Writers |-> FALSE],   \* the first half of a line has reached the file
           reads = {},                            \* completed reads [g, err, res]
@@ -36,47 +38,68 @@ define {
   \* storing twice under one id: exactly one store wins, every other one is a ValueError
   DupOK == \A d \in dups : d.g \in Stored
 }
+\* One label = one visible operation of the real code (the kind is given in the comment and, as a table, in
+\* ReplayTextFileStorage.tla): the binding engines compare them step by step.
 fair process (W \in Writers)
-variables k = 1, g = 0, off = 0;
+variables k = 1, g = 0, off = 0, t = 0;
 {
- W0: while (k <= Len(Scripts[self])) {
-       g := Scripts[self][k];
- WAcq: await lock = 0; lock := self;
- WLen: if (Len(index) <= g) {
- WExt:   index := index \o [j \in 1..(g - Len(index) + 1) |-> None]; };
- WDup: if (index[g + 1] # None) { dups := dups \cup {[w |-> self, g |-> g]}; lock := 0; k := k + 1; goto W0; };
- WTell: off := Len(files[self]);
-       if (~PublishFirst) {
- WWr1:   partial[self] := TRUE;
- WWr2:   files[self] := Append(files[self], <<self, g>>); partial[self] := FALSE; };
- WPub: index[g + 1] := [w |-> self, off |-> off];
- WCnt: cnt := cnt + 1;
- WWf:  if (g = wf) {
- WWf1:   wf := wf + 1;
- WWf2:   while (wf < cnt /\ index[wf + 1] # None) { wf := wf + 1; }; };
- WRel: lock := 0;
-       if (PublishFirst) {
- WLate1: partial[self] := TRUE;
- WLate2: files[self] := Append(files[self], <<self, g>>); partial[self] := FALSE; };
- WNext: k := k + 1;
-     }
+ WStart:  skip;                                                          \* the process starts
+ \* open(): the file is registered under the lock, then created
+ WOAcq:   await lock = 0; lock := self;                                  \* rlock.acq
+ WOLen:   skip;                                                          \* ml.len   (process identifier := len(paths))
+ WOApp:   paths := Append(paths, self);                                  \* ml.append
+ WORel:   lock := 0;                                                     \* rlock.rel
+ WOCreate: skip;                                                         \* file.create
+ \* st[g] = text, for every id of the script
+ WAcq:    while (k <= Len(Scripts[self])) {
+            await lock = 0; lock := self; g := Scripts[self][k];         \* rlock.acq
+ WLen:      if (Len(index) <= g) {                                       \* ml.len
+ WLen2:       skip;                                                      \* ml.len   (argument of extend)
+ WExt:        index := index \o [j \in 1..(g - Len(index) + 1) |-> None]; };   \* ml.extend
+ WDup:      if (index[g + 1] # None) {                                   \* ml.get
+ WRelE:       dups := dups \cup {[w |-> self, g |-> g]}; lock := 0; k := k + 1; goto WAcq; };   \* rlock.rel (ValueError)
+ WTell:     off := Len(files[self]);                                     \* file.tell
+            if (PublishFirst) { goto WPub; };
+ WWr1:      partial[self] := TRUE;                                       \* file.write (first part of the line)
+ WWr2:      files[self] := Append(files[self], <<self, g>>); partial[self] := FALSE;   \* file.write (rest)
+            if (PublishFirst) { k := k + 1; goto WAcq; };
+ WPub:      index[g + 1] := [w |-> self, off |-> off];                   \* ml.set
+ WCntG:     t := cnt;                                                    \* val.get  (_stored_cnt.value += 1)
+ WCntS:     cnt := t + 1;                                                \* val.set
+ WWfG:      if (g = wf) {                                                \* val.get  (g == _waiting_for.value)
+ WWf1G:       t := wf;                                                   \* val.get  (_waiting_for.value += 1)
+ WWf1S:       wf := t + 1;                                               \* val.set
+ WLwf:        t := wf;                                                   \* val.get  (while _waiting_for.value < ...
+ WLcnt:       if (t < cnt) {                                             \* val.get      ... len(self)
+ WLwf2:         t := wf;                                                 \* val.get      and _index[_waiting_for.value]
+ WLidx:         if (index[t + 1] # None) {                               \* ml.get           ... is not None)
+ WLincG:          t := wf;                                               \* val.get  (_waiting_for.value += 1)
+ WLincS:          wf := t + 1; goto WLwf; }; }; };                       \* val.set
+ WRel:      lock := 0;                                                   \* rlock.rel
+            if (PublishFirst) { goto WWr1; } else { k := k + 1; };
+          }
 }
 fair process (R \in Readers)
-variables want = 0, ent = None, n = 0;
+variables want = 0, ent = None, n = 0, opened = {};
 {
- R0: while (n < NReads) {
-       with (x \in Probe) { want := x; };
- RAcq: await lock = 0; lock := self;
- RIdx: if (Len(index) <= want \/ index[want + 1] = None) {
-         reads := reads \cup {[g |-> want, err |-> TRUE, res |-> <<>>]}; lock := 0; n := n + 1; goto R0; }
-       else { ent := index[want + 1]; };
- RRel: lock := 0;
- RRead: reads := reads \cup {[g |-> want, err |-> FALSE, res |-> TextAt(ent.w, ent.off)]}; n := n + 1;
-     }
+ RStart:  skip;                                                          \* the process starts
+ \* st[want]
+ RAcq:    while (n < NReads) {
+            await lock = 0; lock := self;                                \* rlock.acq
+            with (x \in Probe) { want := x; };
+ RLen:      if (Len(index) <= want) { goto RRelE; };                     \* ml.len
+ RGet:      if (index[want + 1] = None) { goto RRelE; } else { ent := index[want + 1]; };   \* ml.get
+ RRel:      lock := 0;                                                   \* rlock.rel
+            if (ent.w \in opened) { goto RRead; };
+ RPath:     skip;                                                        \* ml.get   (path of the writer's file)
+ ROpen:     opened := opened \cup {ent.w};                               \* file.open_r
+ RRead:     reads := reads \cup {[g |-> want, err |-> FALSE, res |-> TextAt(ent.w, ent.off)]}; n := n + 1; goto RAcq;   \* file.readline
+ RRelE:     lock := 0; reads := reads \cup {[g |-> want, err |-> TRUE, res |-> <<>>]}; n := n + 1;   \* rlock.rel (IndexError)
+          }
 }
 } *)
 \* BEGIN TRANSLATION
-VARIABLES pc, index, cnt, wf, lock, files, partial, reads, dups
+VARIABLES pc, index, cnt, wf, lock, paths, files, partial, reads, dups
 
 (* define statement *)
 Stored == {g \in 0..(Len(index) - 1) : index[g + 1] # None}
@@ -89,10 +112,10 @@ WfOK == lock = 0 => wf = (CHOOSE g \in 0..Len(index) : g \notin Stored /\ \A h \
 
 DupOK == \A d \in dups : d.g \in Stored
 
-VARIABLES k, g, off, want, ent, n
+VARIABLES k, g, off, t, want, ent, n, opened
 
-vars == << pc, index, cnt, wf, lock, files, partial, reads, dups, k, g, off, 
-           want, ent, n >>
+vars == << pc, index, cnt, wf, lock, paths, files, partial, reads, dups, k, g, 
+           off, t, want, ent, n, opened >>
 
 ProcSet == (Writers) \cup (Readers)
 
@@ -101,6 +124,7 @@ Init == (* Global variables *)
         /\ cnt = 0
         /\ wf = 0
         /\ lock = 0
+        /\ paths = <<>>
         /\ files = [w \in Writers |-> <<>>]
         /\ partial = [w \in Writers |-> FALSE]
         /\ reads = {}
@@ -109,185 +133,290 @@ Init == (* Global variables *)
         /\ k = [self \in Writers |-> 1]
         /\ g = [self \in Writers |-> 0]
         /\ off = [self \in Writers |-> 0]
+        /\ t = [self \in Writers |-> 0]
         (* Process R *)
         /\ want = [self \in Readers |-> 0]
         /\ ent = [self \in Readers |-> None]
         /\ n = [self \in Readers |-> 0]
-        /\ pc = [self \in ProcSet |-> CASE self \in Writers -> "W0"
-                                        [] self \in Readers -> "R0"]
+        /\ opened = [self \in Readers |-> {}]
+        /\ pc = [self \in ProcSet |-> CASE self \in Writers -> "WStart"
+                                        [] self \in Readers -> "RStart"]
 
-W0(self) == /\ pc[self] = "W0"
-            /\ IF k[self] <= Len(Scripts[self])
-                  THEN /\ g' = [g EXCEPT ![self] = Scripts[self][k[self]]]
-                       /\ pc' = [pc EXCEPT ![self] = "WAcq"]
-                  ELSE /\ pc' = [pc EXCEPT ![self] = "Done"]
-                       /\ g' = g
-            /\ UNCHANGED << index, cnt, wf, lock, files, partial, reads, dups, 
-                            k, off, want, ent, n >>
+WStart(self) == /\ pc[self] = "WStart"
+                /\ TRUE
+                /\ pc' = [pc EXCEPT ![self] = "WOAcq"]
+                /\ UNCHANGED << index, cnt, wf, lock, paths, files, partial, 
+                                reads, dups, k, g, off, t, want, ent, n, 
+                                opened >>
+
+WOAcq(self) == /\ pc[self] = "WOAcq"
+               /\ lock = 0
+               /\ lock' = self
+               /\ pc' = [pc EXCEPT ![self] = "WOLen"]
+               /\ UNCHANGED << index, cnt, wf, paths, files, partial, reads, 
+                               dups, k, g, off, t, want, ent, n, opened >>
+
+WOLen(self) == /\ pc[self] = "WOLen"
+               /\ TRUE
+               /\ pc' = [pc EXCEPT ![self] = "WOApp"]
+               /\ UNCHANGED << index, cnt, wf, lock, paths, files, partial, 
+                               reads, dups, k, g, off, t, want, ent, n, opened >>
+
+WOApp(self) == /\ pc[self] = "WOApp"
+               /\ paths' = Append(paths, self)
+               /\ pc' = [pc EXCEPT ![self] = "WORel"]
+               /\ UNCHANGED << index, cnt, wf, lock, files, partial, reads, 
+                               dups, k, g, off, t, want, ent, n, opened >>
+
+WORel(self) == /\ pc[self] = "WORel"
+               /\ lock' = 0
+               /\ pc' = [pc EXCEPT ![self] = "WOCreate"]
+               /\ UNCHANGED << index, cnt, wf, paths, files, partial, reads, 
+                               dups, k, g, off, t, want, ent, n, opened >>
+
+WOCreate(self) == /\ pc[self] = "WOCreate"
+                  /\ TRUE
+                  /\ pc' = [pc EXCEPT ![self] = "WAcq"]
+                  /\ UNCHANGED << index, cnt, wf, lock, paths, files, partial, 
+                                  reads, dups, k, g, off, t, want, ent, n, 
+                                  opened >>
 
 WAcq(self) == /\ pc[self] = "WAcq"
-              /\ lock = 0
-              /\ lock' = self
-              /\ pc' = [pc EXCEPT ![self] = "WLen"]
-              /\ UNCHANGED << index, cnt, wf, files, partial, reads, dups, k, 
-                              g, off, want, ent, n >>
+              /\ IF k[self] <= Len(Scripts[self])
+                    THEN /\ lock = 0
+                         /\ lock' = self
+                         /\ g' = [g EXCEPT ![self] = Scripts[self][k[self]]]
+                         /\ pc' = [pc EXCEPT ![self] = "WLen"]
+                    ELSE /\ pc' = [pc EXCEPT ![self] = "Done"]
+                         /\ UNCHANGED << lock, g >>
+              /\ UNCHANGED << index, cnt, wf, paths, files, partial, reads, 
+                              dups, k, off, t, want, ent, n, opened >>
 
 WLen(self) == /\ pc[self] = "WLen"
               /\ IF Len(index) <= g[self]
-                    THEN /\ pc' = [pc EXCEPT ![self] = "WExt"]
+                    THEN /\ pc' = [pc EXCEPT ![self] = "WLen2"]
                     ELSE /\ pc' = [pc EXCEPT ![self] = "WDup"]
-              /\ UNCHANGED << index, cnt, wf, lock, files, partial, reads, 
-                              dups, k, g, off, want, ent, n >>
+              /\ UNCHANGED << index, cnt, wf, lock, paths, files, partial, 
+                              reads, dups, k, g, off, t, want, ent, n, opened >>
+
+WLen2(self) == /\ pc[self] = "WLen2"
+               /\ TRUE
+               /\ pc' = [pc EXCEPT ![self] = "WExt"]
+               /\ UNCHANGED << index, cnt, wf, lock, paths, files, partial, 
+                               reads, dups, k, g, off, t, want, ent, n, opened >>
 
 WExt(self) == /\ pc[self] = "WExt"
               /\ index' = index \o [j \in 1..(g[self] - Len(index) + 1) |-> None]
               /\ pc' = [pc EXCEPT ![self] = "WDup"]
-              /\ UNCHANGED << cnt, wf, lock, files, partial, reads, dups, k, g, 
-                              off, want, ent, n >>
+              /\ UNCHANGED << cnt, wf, lock, paths, files, partial, reads, 
+                              dups, k, g, off, t, want, ent, n, opened >>
 
 WDup(self) == /\ pc[self] = "WDup"
               /\ IF index[g[self] + 1] # None
-                    THEN /\ dups' = (dups \cup {[w |-> self, g |-> g[self]]})
-                         /\ lock' = 0
-                         /\ k' = [k EXCEPT ![self] = k[self] + 1]
-                         /\ pc' = [pc EXCEPT ![self] = "W0"]
+                    THEN /\ pc' = [pc EXCEPT ![self] = "WRelE"]
                     ELSE /\ pc' = [pc EXCEPT ![self] = "WTell"]
-                         /\ UNCHANGED << lock, dups, k >>
-              /\ UNCHANGED << index, cnt, wf, files, partial, reads, g, off, 
-                              want, ent, n >>
+              /\ UNCHANGED << index, cnt, wf, lock, paths, files, partial, 
+                              reads, dups, k, g, off, t, want, ent, n, opened >>
+
+WRelE(self) == /\ pc[self] = "WRelE"
+               /\ dups' = (dups \cup {[w |-> self, g |-> g[self]]})
+               /\ lock' = 0
+               /\ k' = [k EXCEPT ![self] = k[self] + 1]
+               /\ pc' = [pc EXCEPT ![self] = "WAcq"]
+               /\ UNCHANGED << index, cnt, wf, paths, files, partial, reads, g, 
+                               off, t, want, ent, n, opened >>
 
 WTell(self) == /\ pc[self] = "WTell"
                /\ off' = [off EXCEPT ![self] = Len(files[self])]
-               /\ IF ~PublishFirst
-                     THEN /\ pc' = [pc EXCEPT ![self] = "WWr1"]
-                     ELSE /\ pc' = [pc EXCEPT ![self] = "WPub"]
-               /\ UNCHANGED << index, cnt, wf, lock, files, partial, reads, 
-                               dups, k, g, want, ent, n >>
+               /\ IF PublishFirst
+                     THEN /\ pc' = [pc EXCEPT ![self] = "WPub"]
+                     ELSE /\ pc' = [pc EXCEPT ![self] = "WWr1"]
+               /\ UNCHANGED << index, cnt, wf, lock, paths, files, partial, 
+                               reads, dups, k, g, t, want, ent, n, opened >>
 
 WWr1(self) == /\ pc[self] = "WWr1"
               /\ partial' = [partial EXCEPT ![self] = TRUE]
               /\ pc' = [pc EXCEPT ![self] = "WWr2"]
-              /\ UNCHANGED << index, cnt, wf, lock, files, reads, dups, k, g, 
-                              off, want, ent, n >>
+              /\ UNCHANGED << index, cnt, wf, lock, paths, files, reads, dups, 
+                              k, g, off, t, want, ent, n, opened >>
 
 WWr2(self) == /\ pc[self] = "WWr2"
               /\ files' = [files EXCEPT ![self] = Append(files[self], <<self, g[self]>>)]
               /\ partial' = [partial EXCEPT ![self] = FALSE]
-              /\ pc' = [pc EXCEPT ![self] = "WPub"]
-              /\ UNCHANGED << index, cnt, wf, lock, reads, dups, k, g, off, 
-                              want, ent, n >>
+              /\ IF PublishFirst
+                    THEN /\ k' = [k EXCEPT ![self] = k[self] + 1]
+                         /\ pc' = [pc EXCEPT ![self] = "WAcq"]
+                    ELSE /\ pc' = [pc EXCEPT ![self] = "WPub"]
+                         /\ k' = k
+              /\ UNCHANGED << index, cnt, wf, lock, paths, reads, dups, g, off, 
+                              t, want, ent, n, opened >>
 
 WPub(self) == /\ pc[self] = "WPub"
               /\ index' = [index EXCEPT ![g[self] + 1] = [w |-> self, off |-> off[self]]]
-              /\ pc' = [pc EXCEPT ![self] = "WCnt"]
-              /\ UNCHANGED << cnt, wf, lock, files, partial, reads, dups, k, g, 
-                              off, want, ent, n >>
+              /\ pc' = [pc EXCEPT ![self] = "WCntG"]
+              /\ UNCHANGED << cnt, wf, lock, paths, files, partial, reads, 
+                              dups, k, g, off, t, want, ent, n, opened >>
 
-WCnt(self) == /\ pc[self] = "WCnt"
-              /\ cnt' = cnt + 1
-              /\ pc' = [pc EXCEPT ![self] = "WWf"]
-              /\ UNCHANGED << index, wf, lock, files, partial, reads, dups, k, 
-                              g, off, want, ent, n >>
+WCntG(self) == /\ pc[self] = "WCntG"
+               /\ t' = [t EXCEPT ![self] = cnt]
+               /\ pc' = [pc EXCEPT ![self] = "WCntS"]
+               /\ UNCHANGED << index, cnt, wf, lock, paths, files, partial, 
+                               reads, dups, k, g, off, want, ent, n, opened >>
 
-WWf(self) == /\ pc[self] = "WWf"
-             /\ IF g[self] = wf
-                   THEN /\ pc' = [pc EXCEPT ![self] = "WWf1"]
-                   ELSE /\ pc' = [pc EXCEPT ![self] = "WRel"]
-             /\ UNCHANGED << index, cnt, wf, lock, files, partial, reads, dups, 
-                             k, g, off, want, ent, n >>
+WCntS(self) == /\ pc[self] = "WCntS"
+               /\ cnt' = t[self] + 1
+               /\ pc' = [pc EXCEPT ![self] = "WWfG"]
+               /\ UNCHANGED << index, wf, lock, paths, files, partial, reads, 
+                               dups, k, g, off, t, want, ent, n, opened >>
 
-WWf1(self) == /\ pc[self] = "WWf1"
-              /\ wf' = wf + 1
-              /\ pc' = [pc EXCEPT ![self] = "WWf2"]
-              /\ UNCHANGED << index, cnt, lock, files, partial, reads, dups, k, 
-                              g, off, want, ent, n >>
-
-WWf2(self) == /\ pc[self] = "WWf2"
-              /\ IF wf < cnt /\ index[wf + 1] # None
-                    THEN /\ wf' = wf + 1
-                         /\ pc' = [pc EXCEPT ![self] = "WWf2"]
+WWfG(self) == /\ pc[self] = "WWfG"
+              /\ IF g[self] = wf
+                    THEN /\ pc' = [pc EXCEPT ![self] = "WWf1G"]
                     ELSE /\ pc' = [pc EXCEPT ![self] = "WRel"]
-                         /\ wf' = wf
-              /\ UNCHANGED << index, cnt, lock, files, partial, reads, dups, k, 
-                              g, off, want, ent, n >>
+              /\ UNCHANGED << index, cnt, wf, lock, paths, files, partial, 
+                              reads, dups, k, g, off, t, want, ent, n, opened >>
+
+WWf1G(self) == /\ pc[self] = "WWf1G"
+               /\ t' = [t EXCEPT ![self] = wf]
+               /\ pc' = [pc EXCEPT ![self] = "WWf1S"]
+               /\ UNCHANGED << index, cnt, wf, lock, paths, files, partial, 
+                               reads, dups, k, g, off, want, ent, n, opened >>
+
+WWf1S(self) == /\ pc[self] = "WWf1S"
+               /\ wf' = t[self] + 1
+               /\ pc' = [pc EXCEPT ![self] = "WLwf"]
+               /\ UNCHANGED << index, cnt, lock, paths, files, partial, reads, 
+                               dups, k, g, off, t, want, ent, n, opened >>
+
+WLwf(self) == /\ pc[self] = "WLwf"
+              /\ t' = [t EXCEPT ![self] = wf]
+              /\ pc' = [pc EXCEPT ![self] = "WLcnt"]
+              /\ UNCHANGED << index, cnt, wf, lock, paths, files, partial, 
+                              reads, dups, k, g, off, want, ent, n, opened >>
+
+WLcnt(self) == /\ pc[self] = "WLcnt"
+               /\ IF t[self] < cnt
+                     THEN /\ pc' = [pc EXCEPT ![self] = "WLwf2"]
+                     ELSE /\ pc' = [pc EXCEPT ![self] = "WRel"]
+               /\ UNCHANGED << index, cnt, wf, lock, paths, files, partial, 
+                               reads, dups, k, g, off, t, want, ent, n, opened >>
+
+WLwf2(self) == /\ pc[self] = "WLwf2"
+               /\ t' = [t EXCEPT ![self] = wf]
+               /\ pc' = [pc EXCEPT ![self] = "WLidx"]
+               /\ UNCHANGED << index, cnt, wf, lock, paths, files, partial, 
+                               reads, dups, k, g, off, want, ent, n, opened >>
+
+WLidx(self) == /\ pc[self] = "WLidx"
+               /\ IF index[t[self] + 1] # None
+                     THEN /\ pc' = [pc EXCEPT ![self] = "WLincG"]
+                     ELSE /\ pc' = [pc EXCEPT ![self] = "WRel"]
+               /\ UNCHANGED << index, cnt, wf, lock, paths, files, partial, 
+                               reads, dups, k, g, off, t, want, ent, n, opened >>
+
+WLincG(self) == /\ pc[self] = "WLincG"
+                /\ t' = [t EXCEPT ![self] = wf]
+                /\ pc' = [pc EXCEPT ![self] = "WLincS"]
+                /\ UNCHANGED << index, cnt, wf, lock, paths, files, partial, 
+                                reads, dups, k, g, off, want, ent, n, opened >>
+
+WLincS(self) == /\ pc[self] = "WLincS"
+                /\ wf' = t[self] + 1
+                /\ pc' = [pc EXCEPT ![self] = "WLwf"]
+                /\ UNCHANGED << index, cnt, lock, paths, files, partial, reads, 
+                                dups, k, g, off, t, want, ent, n, opened >>
 
 WRel(self) == /\ pc[self] = "WRel"
               /\ lock' = 0
               /\ IF PublishFirst
-                    THEN /\ pc' = [pc EXCEPT ![self] = "WLate1"]
-                    ELSE /\ pc' = [pc EXCEPT ![self] = "WNext"]
-              /\ UNCHANGED << index, cnt, wf, files, partial, reads, dups, k, 
-                              g, off, want, ent, n >>
+                    THEN /\ pc' = [pc EXCEPT ![self] = "WWr1"]
+                         /\ k' = k
+                    ELSE /\ k' = [k EXCEPT ![self] = k[self] + 1]
+                         /\ pc' = [pc EXCEPT ![self] = "WAcq"]
+              /\ UNCHANGED << index, cnt, wf, paths, files, partial, reads, 
+                              dups, g, off, t, want, ent, n, opened >>
 
-WLate1(self) == /\ pc[self] = "WLate1"
-                /\ partial' = [partial EXCEPT ![self] = TRUE]
-                /\ pc' = [pc EXCEPT ![self] = "WLate2"]
-                /\ UNCHANGED << index, cnt, wf, lock, files, reads, dups, k, g, 
-                                off, want, ent, n >>
-
-WLate2(self) == /\ pc[self] = "WLate2"
-                /\ files' = [files EXCEPT ![self] = Append(files[self], <<self, g[self]>>)]
-                /\ partial' = [partial EXCEPT ![self] = FALSE]
-                /\ pc' = [pc EXCEPT ![self] = "WNext"]
-                /\ UNCHANGED << index, cnt, wf, lock, reads, dups, k, g, off, 
-                                want, ent, n >>
-
-WNext(self) == /\ pc[self] = "WNext"
-               /\ k' = [k EXCEPT ![self] = k[self] + 1]
-               /\ pc' = [pc EXCEPT ![self] = "W0"]
-               /\ UNCHANGED << index, cnt, wf, lock, files, partial, reads, 
-                               dups, g, off, want, ent, n >>
-
-W(self) == W0(self) \/ WAcq(self) \/ WLen(self) \/ WExt(self) \/ WDup(self)
+W(self) == WStart(self) \/ WOAcq(self) \/ WOLen(self) \/ WOApp(self)
+              \/ WORel(self) \/ WOCreate(self) \/ WAcq(self) \/ WLen(self)
+              \/ WLen2(self) \/ WExt(self) \/ WDup(self) \/ WRelE(self)
               \/ WTell(self) \/ WWr1(self) \/ WWr2(self) \/ WPub(self)
-              \/ WCnt(self) \/ WWf(self) \/ WWf1(self) \/ WWf2(self)
-              \/ WRel(self) \/ WLate1(self) \/ WLate2(self) \/ WNext(self)
+              \/ WCntG(self) \/ WCntS(self) \/ WWfG(self) \/ WWf1G(self)
+              \/ WWf1S(self) \/ WLwf(self) \/ WLcnt(self) \/ WLwf2(self)
+              \/ WLidx(self) \/ WLincG(self) \/ WLincS(self) \/ WRel(self)
 
-R0(self) == /\ pc[self] = "R0"
-            /\ IF n[self] < NReads
-                  THEN /\ \E x \in Probe:
-                            want' = [want EXCEPT ![self] = x]
-                       /\ pc' = [pc EXCEPT ![self] = "RAcq"]
-                  ELSE /\ pc' = [pc EXCEPT ![self] = "Done"]
-                       /\ want' = want
-            /\ UNCHANGED << index, cnt, wf, lock, files, partial, reads, dups, 
-                            k, g, off, ent, n >>
+RStart(self) == /\ pc[self] = "RStart"
+                /\ TRUE
+                /\ pc' = [pc EXCEPT ![self] = "RAcq"]
+                /\ UNCHANGED << index, cnt, wf, lock, paths, files, partial, 
+                                reads, dups, k, g, off, t, want, ent, n, 
+                                opened >>
 
 RAcq(self) == /\ pc[self] = "RAcq"
-              /\ lock = 0
-              /\ lock' = self
-              /\ pc' = [pc EXCEPT ![self] = "RIdx"]
-              /\ UNCHANGED << index, cnt, wf, files, partial, reads, dups, k, 
-                              g, off, want, ent, n >>
+              /\ IF n[self] < NReads
+                    THEN /\ lock = 0
+                         /\ lock' = self
+                         /\ \E x \in Probe:
+                              want' = [want EXCEPT ![self] = x]
+                         /\ pc' = [pc EXCEPT ![self] = "RLen"]
+                    ELSE /\ pc' = [pc EXCEPT ![self] = "Done"]
+                         /\ UNCHANGED << lock, want >>
+              /\ UNCHANGED << index, cnt, wf, paths, files, partial, reads, 
+                              dups, k, g, off, t, ent, n, opened >>
 
-RIdx(self) == /\ pc[self] = "RIdx"
-              /\ IF Len(index) <= want[self] \/ index[want[self] + 1] = None
-                    THEN /\ reads' = (reads \cup {[g |-> want[self], err |-> TRUE, res |-> <<>>]})
-                         /\ lock' = 0
-                         /\ n' = [n EXCEPT ![self] = n[self] + 1]
-                         /\ pc' = [pc EXCEPT ![self] = "R0"]
+RLen(self) == /\ pc[self] = "RLen"
+              /\ IF Len(index) <= want[self]
+                    THEN /\ pc' = [pc EXCEPT ![self] = "RRelE"]
+                    ELSE /\ pc' = [pc EXCEPT ![self] = "RGet"]
+              /\ UNCHANGED << index, cnt, wf, lock, paths, files, partial, 
+                              reads, dups, k, g, off, t, want, ent, n, opened >>
+
+RGet(self) == /\ pc[self] = "RGet"
+              /\ IF index[want[self] + 1] = None
+                    THEN /\ pc' = [pc EXCEPT ![self] = "RRelE"]
                          /\ ent' = ent
                     ELSE /\ ent' = [ent EXCEPT ![self] = index[want[self] + 1]]
                          /\ pc' = [pc EXCEPT ![self] = "RRel"]
-                         /\ UNCHANGED << lock, reads, n >>
-              /\ UNCHANGED << index, cnt, wf, files, partial, dups, k, g, off, 
-                              want >>
+              /\ UNCHANGED << index, cnt, wf, lock, paths, files, partial, 
+                              reads, dups, k, g, off, t, want, n, opened >>
 
 RRel(self) == /\ pc[self] = "RRel"
               /\ lock' = 0
-              /\ pc' = [pc EXCEPT ![self] = "RRead"]
-              /\ UNCHANGED << index, cnt, wf, files, partial, reads, dups, k, 
-                              g, off, want, ent, n >>
+              /\ IF ent[self].w \in opened[self]
+                    THEN /\ pc' = [pc EXCEPT ![self] = "RRead"]
+                    ELSE /\ pc' = [pc EXCEPT ![self] = "RPath"]
+              /\ UNCHANGED << index, cnt, wf, paths, files, partial, reads, 
+                              dups, k, g, off, t, want, ent, n, opened >>
+
+RPath(self) == /\ pc[self] = "RPath"
+               /\ TRUE
+               /\ pc' = [pc EXCEPT ![self] = "ROpen"]
+               /\ UNCHANGED << index, cnt, wf, lock, paths, files, partial, 
+                               reads, dups, k, g, off, t, want, ent, n, opened >>
+
+ROpen(self) == /\ pc[self] = "ROpen"
+               /\ opened' = [opened EXCEPT ![self] = opened[self] \cup {ent[self].w}]
+               /\ pc' = [pc EXCEPT ![self] = "RRead"]
+               /\ UNCHANGED << index, cnt, wf, lock, paths, files, partial, 
+                               reads, dups, k, g, off, t, want, ent, n >>
 
 RRead(self) == /\ pc[self] = "RRead"
                /\ reads' = (reads \cup {[g |-> want[self], err |-> FALSE, res |-> TextAt(ent[self].w, ent[self].off)]})
                /\ n' = [n EXCEPT ![self] = n[self] + 1]
-               /\ pc' = [pc EXCEPT ![self] = "R0"]
-               /\ UNCHANGED << index, cnt, wf, lock, files, partial, dups, k, 
-                               g, off, want, ent >>
+               /\ pc' = [pc EXCEPT ![self] = "RAcq"]
+               /\ UNCHANGED << index, cnt, wf, lock, paths, files, partial, 
+                               dups, k, g, off, t, want, ent, opened >>
 
-R(self) == R0(self) \/ RAcq(self) \/ RIdx(self) \/ RRel(self)
-              \/ RRead(self)
+RRelE(self) == /\ pc[self] = "RRelE"
+               /\ lock' = 0
+               /\ reads' = (reads \cup {[g |-> want[self], err |-> TRUE, res |-> <<>>]})
+               /\ n' = [n EXCEPT ![self] = n[self] + 1]
+               /\ pc' = [pc EXCEPT ![self] = "RAcq"]
+               /\ UNCHANGED << index, cnt, wf, paths, files, partial, dups, k, 
+                               g, off, t, want, ent, opened >>
+
+R(self) == RStart(self) \/ RAcq(self) \/ RLen(self) \/ RGet(self)
+              \/ RRel(self) \/ RPath(self) \/ ROpen(self) \/ RRead(self)
+              \/ RRelE(self)
 
 (* Allow infinite stuttering to prevent deadlock on termination. *)
 Terminating == /\ \A self \in ProcSet: pc[self] = "Done"
